@@ -47,7 +47,7 @@ func (g *gen) id(prefix string) string {
 	return fmt.Sprintf("%s%d", prefix, *g.nextID)
 }
 
-var litPool = []string{"a", "x y", "é", "世界", "a&b", "<b>", "it's", "say \"hi\"", "", "1 < 2", "tab\there", "q`r", "😀", "a\\b", " lead", "trail ", "&amp;"}
+var litPool = []string{"a", "x y", "é", "世界", "a&b", "<b>", "it's", "say \"hi\"", "", "1 < 2", "tab\there", "q`r", "😀", "a\\b", " lead", "trail ", "&amp;", "a\uFFFDb"}
 var litForms = []string{"quoted", "raw", "ascii", "quoted"}
 
 func (g *gen) strExpr(depth int) Expr { return g.strExprTop(depth, false) }
@@ -129,7 +129,7 @@ func (g *gen) boolExpr(depth int) Expr {
 	}
 }
 
-var textPool = []string{"hello", "a b c", "é ü", "世界", "Tom &amp; Jerry", "1 &lt; 2", "it's", "x", "tail.", "(paren)", "q?", "50%", "a/b", "semi;colon", "the end", "&#233;", "if", "for", "😀 ok", "-", "ifx y"}
+var textPool = []string{"hello", "a b c", "é ü", "世界", "Tom &amp; Jerry", "1 &lt; 2", "it's", "x", "tail.", "(paren)", "q?", "50%", "a/b", "semi;colon", "the end", "&#233;", "if", "for", "😀 ok", "-", "ifx y", "x \uFFFD y"}
 
 var inlineNames = []string{"a", "abbr", "b", "button", "code", "em", "i", "label", "small", "span", "strong", "u", "x-item"}
 var blockNames = []string{"div", "p", "ul", "li", "section", "h1", "article", "main", "header", "footer", "td"}
@@ -421,8 +421,12 @@ func (g *gen) node(depth int) Node {
 				n.Kids = g.nodes(depth-1, 3)
 			}
 		} else {
-			n.Callee = rapid.SampledFrom([]string{"param", "param", "card", "box", "index0", "index1"}).Draw(g.t, "callee")
+			n.Callee = rapid.SampledFrom([]string{"param", "param", "card", "box", "index0", "index1", "flush"}).Draw(g.t, "callee")
 			switch n.Callee {
+			case "flush":
+				// templ.Flush renders its block in place (and flushes the writer afterwards)
+				n.HasBlock = true
+				n.Kids = g.nodes(depth-1, 3)
 			case "param":
 				n.Legacy = rapid.IntRange(0, 3).Draw(g.t, "legacy") == 0
 			case "card", "box":
